@@ -305,7 +305,7 @@ def run(rep: Report, rng, tier: str, known: dict, search: bool = False) -> None:
 def evidence(rep: Report) -> None:
     write_evidence(
         rep,
-        rule="cases = (expression, variable as name or object, point supplying the variables, inside or outside the domain); every case runs all routes {Partial late/early/after as_expression, Derivative late/early/after (<=1 variable), Differential.component.at late/early, component_at late/early, Differential.at.component late/early, LocatedDifferential.component} on fresh objects and compares them pairwise and with the model; as_expression early/late and the two object equalities on half of the cases (all in thorough); expressions include planted undefined sub-trees; non-trivial = >= 3 nodes; distinct by (wire, point, variable)",
+        rule="cases = (expression, variable as name or object, point supplying the variables, inside or outside the domain); every case runs all routes {Partial late/early/after as_expression, Derivative late/early/after (<=1 variable), Differential.component.at late/early, component_at late/early, Differential.at.component late/early, LocatedDifferential.component} on fresh objects and compares them pairwise and with the model; as_expression early/late and the two object equalities on half of the cases (all in thorough); expressions include planted undefined sub-trees; non-trivial = >= 3 nodes; distinct by (wire, point, variable); plus warm-up calls on the route's own object, hash-twin points, near-special, compensating, vanishing-factor and subnormal-power families, bare-number spelling of the Derivative routes",
         trusted=common.TRUSTED,
         assumptions=[common.ASSUME_RANGE,
                      "K1, K2 (recorded findings) are reported as KNOWN-FINDING when their signature matches"],
